@@ -4,10 +4,10 @@ package simnet
 // synctest bubble (fake wall clock), collect the result.
 
 import (
-	"os"
 	"crypto/sha256"
 	"encoding/hex"
 	"fmt"
+	"os"
 	"sort"
 	"strings"
 	"testing"
